@@ -28,6 +28,9 @@ RULE = (
 )
 ASSUMPTIONS = [
     "each inserted object is fresh (never inserted at two places); operations addressing members *through* an alias are outside the alphabet",
+    "states in which an alias-valued target was created other than by lazy resolution (an object that aliases point at is replaced by an Alias; "
+    "alias.target = <another alias>) are checked but not expanded further: the `aliases` table of an alias is a proxy for its final target and the "
+    "property's back-reference clause is not well defined beyond that point",
     "soundness of the canonical form: it contains every field the operations' enabledness and the invariants read "
     "(members, parent, kind, module file suffix, alias target/target_path/resolved, every aliases table incl. stale entries)",
 ]
@@ -154,6 +157,7 @@ class World:
         # model's view of alias targets: label -> label | None (unresolved) | "?" (don't care, synced from impl)
         self.m_target: dict[int, object] = {}
         self.used_retarget = False
+        self.tainted = False  # an alias-valued target was created other than by lazy resolution: successors are not explored
         self.loose: set[int] = set()  # aliases linked to an alias value whose chain was not resolvable then
 
     # -- creation --------------------------------------------------------------------------------------------
@@ -333,6 +337,7 @@ class Step:
                     old = w.objs[old_label]
                     if old.aliases and w.objs[new_label].__class__.__name__ == "Alias" and w.m_target.get(new_label) is None:
                         # registering a back-reference on a replacing *alias* reads its final target: resolution side effect
+                        w.tainted = True
                         w.m_target[new_label] = "?"
                     for apath, alias in list(old.aliases.items()):
                         al_label = next((l for l, o in w.objs.items() if o is alias), None)
@@ -448,6 +453,7 @@ class Step:
             if i_out == "ok":
                 w.used_retarget = True
                 if tn.kind == "alias":
+                    w.tainted = True
                     _o, chain = self.m_resolve(tn.label, set())
                     for al_label, tgt_label in chain:
                         w.m_target[al_label] = tgt_label
@@ -739,7 +745,7 @@ def expand(hist, tier):
         if r is None:
             continue
         i_out, viols, w = r
-        out.append((oi, i_out, _digest(canon(w)), viols, True))
+        out.append((oi, i_out, _digest(canon(w)), viols, not w.tainted))
     return out
 
 
